@@ -242,9 +242,19 @@ class Context:
         normaliser: sin^2(x) = 1 - cos^2(x); cos(-x) = cos(x); sin(-x) = -sin(x)"""
         cos_apps = {a[0].get_id(): (a[0], r) for a, r in self.apps.get('cos', [])}
         sin_apps = {a[0].get_id(): (a[0], r) for a, r in self.apps.get('sin', [])}
-        if not cos_apps and not sin_apps:
+        sqrt_apps = self.apps.get('sqrt', [])
+        if not cos_apps and not sin_apps and not sqrt_apps:
             return None
         pairs, rename = {}, {}
+        if sqrt_apps:
+            from . import poly
+            for a, r in sqrt_apps:
+                try:
+                    pairs[r.get_id()] = poly.to_poly(a[0]) or {(): 0}     # sqrt(X)^2 = X (X >= 0 is a side obligation)
+                    if pairs[r.get_id()] == {(): 0}:
+                        pairs[r.get_id()] = {}
+                except Exception:
+                    pass
         args = {}
         for k, (x, r) in list(cos_apps.items()) + list(sin_apps.items()):
             args[k] = x
